@@ -81,6 +81,11 @@ CHECKS = {
         text="Every definition in the bounded space is expanded by the real code; the set of where-predicates mentioning a type parameter must equal {type of each referenced generic field : trait of the referencing placeholder} U bound(..) predicates. rustc then confirms on the compiled sub-space that the bounds are enough and do not constrain unformatted parameters.",
         note="Trusted: the model in props/c04.py (each prediction executed); whitespace-free text comparison of predicates; std impl table used to pick instantiations. Trivially-true predicates on non-generic types are ignored.",
         design_ref="DESIGN.md §3 C04", engine="inproc+compile"),
+    "C06": dict(
+        technique="(1) bounded exhaustive enumeration of type universes (struct shapes x 8 field types, enums over 7 variant kinds, raw identifiers, generics, 3-level nesting, all skip subsets, field-level format attributes) each defined with derive_more::Debug, with std's derive / std builders, and with an executable model of the one known defect, compared under a grid of 336 (768 thorough) formatter specs; (2) explicit-state breadth-first exploration of the real DebugTuple builder: (name, operation sequence up to depth 3 (4), terminal, 24 formatter specs) x every write-fault point of the output, against core::fmt::DebugTuple (same bytes before the fault, same Result)",
+        text="Differential exploration against std's own Debug machinery, with fault enumeration on the sink for the re-implemented builder; the state space of the builder is enumerated exhaustively up to the stated depth.",
+        note="Trusted: std's derive(Debug)/builders as the specification; the sticky failing sink. The known finding is recognised only when the output equals the defect model exactly.",
+        design_ref="DESIGN.md §3 C06", engine="compile + engines/dbgtuple"),
 }
 
 PENDING = ["C01", "C02", "C03", "C04", "C05", "C06", "C07", "C08", "C09", "C10", "C11", "C13", "C14", "C15", "C16",
@@ -116,6 +121,8 @@ def main():
         "engines": [
             {"name": "inproc", "path": "engines/inproc", "serves_properties": ["C01", "C03", "C04", "C08", "C09", "C16", "C17", "C18", "C19"],
              "kind_free_text": "Rust crate mounting /repo/impl/src by #[path]; calls the real expand() functions in-process under catch_unwind; exhaustive enumerators"},
+            {"name": "dbgtuple", "path": "engines/dbgtuple", "serves_properties": ["C06"],
+             "kind_free_text": "explicit-state BFS over derive_more's DebugTuple builder operations x formatter specs x write-fault points against core::fmt::DebugTuple"},
             {"name": "compile", "path": "lib/compile_engine.py", "serves_properties": sorted(CHECKS),
              "kind_free_text": "generates crates using the real proc-macro, builds them with cargo, attributes diagnostics to cases (masking fixpoint, canaries), runs them"},
         ],
